@@ -5,7 +5,7 @@ from oracle_util import *  # noqa
 from protocol import from_real, KEY_IDX
 
 ID = "C09"
-LEAN_MODULE = ["SCoda.Props.C09", "SCoda.Props.Purity", "SCoda.Props.C16b", "SCoda.Props.Strong589", "SCoda.Props.ElemTie", "SCoda.Props.StaticTie", "SCoda.Props.RelTie2", "SCoda.Props.C09n", "SCoda.Props.AbsTie2"]
+LEAN_MODULE = ["SCoda.Props.C09", "SCoda.Props.Purity", "SCoda.Props.C16b", "SCoda.Props.Strong589", "SCoda.Props.ElemTie", "SCoda.Props.StaticTie", "SCoda.Props.RelTie2", "SCoda.Props.C09n", "SCoda.Props.AbsTie2", "SCoda.Props.StaticLink"]
 LEVEL = "proof"
 CLAUSES = [
     ("every track gets the same number of bars (one list per input track, all of one positive length); the loop terminates for positive bar lengths",
@@ -55,6 +55,8 @@ CLAUSES = [
      ["SCoda.C09n.sound_exact_boundary'", "SCoda.C09n.sound_exact_barlines'", "SCoda.C09n.noZeroOnBarLine_iff", "SCoda.C09n.noZeroOnGrid'_of_B"]),
     ('TIE BY TRANSLATION, absolute view with object identity: the dict-heavy / aliasing methods of AbsoluteSequence are re-translated statement by statement on every run (Gen/AbsFns2.lean, tools/py2lean_abs2.py: Message objects live in a heap, a reference is a position tag, stores through any alias update the heap cell, dicts are insertion-ordered association lists, while loops carry proved fuel bounds) and proved equal to the hand models, for every heap and reference list with references into the heap and channels not None: get_message_times_of_type (the link of the static translator through which sequences_split_bars reads signatures and keys, audit round 3 R1) returns the references filtered by type paired with their times = the model timesOfType, no hypothesis',
      ["SCoda.AbsTie2.getMessageTimesOfType_eq", "SCoda.AbsTie2.timesOfType_eq", "SCoda.AbsTie2.timesOfType_init"]),
+    ('the link through which the translated sequences_split_bars reads the signature and key queues (AbsoluteSequence.get_message_times_of_type, a hand-written definition in Model/StaticLib.lean) is what the TRANSLATED method computes on a freshly built list, read back through the heap (audit round 3 R1: an edit of that method now breaks this obligation)',
+     ["SCoda.StaticLink.timesOfType_link", "SCoda.AbsTie2.getMessageTimesOfType_eq", "SCoda.AbsTie2.timesOfType_init"]),
 ]
 RULE = ("multi-track pieces (1-3 tracks, 1-5 bars, 9 signatures with boundary-aligned changes, key changes on bar lines, "
         "tracks of unequal length, empty tracks, notes crossing bar lines) x re-quantisation on/off; "
